@@ -601,8 +601,9 @@ def roundtrip_traces(chk: Check, header, seed: int, n: int, w: Path) -> None:
         except Exception:  # noqa: BLE001 - rejected original: nothing to round-trip
             continue
         t2 = dict(t)
-        t2["probe"] = c02.obs_record(c02.observe("probe", ser, t["style"]["slash"]))
-        t2["comp"] = c02.obs_record(c02.observe("comp", ser, t["style"]["slash"]))
+        for pth in c02.PATHS:
+            if t[pth]["o"] != "n/a":
+                t2[pth] = c02.obs_record(c02.observe(pth, ser, t["style"]["slash"]))
         pairs.append((t, t2, ser))
     recs = []
     for i, (t, t2, _) in enumerate(pairs):
@@ -618,7 +619,7 @@ def roundtrip_traces(chk: Check, header, seed: int, n: int, w: Path) -> None:
     r = tlc.require_ok(tlc.run("Trace_C02", str(cfg), env={"IN": str(f)}, workers=1, timeout=3000), "Trace_C02 (round trip)")
     v = c02._verdicts(r, len(recs))
     for i, (t, t2, ser) in enumerate(pairs):
-        va, vb = v[2 * i + 1] or ["ok"] * 3, v[2 * i + 2] or ["ok"] * 3
+        va, vb = v[2 * i + 1] or ["ok"] * 5, v[2 * i + 2] or ["ok"] * 5
         # statuses "dev:<name>" are C02's named deviations (reported there); the round trip fails
         # when the serialisation is NOT explained by the specification although the original is
         if any(b.startswith("bad:") and a != b for a, b in zip(va[1:], vb[1:])):
@@ -645,9 +646,12 @@ def core(chk: Check, tier: str, procs: int, maxlen: int, n_bases: int, grow_n: i
     w = workdir("c12")
     t0 = time.time()
     if "tag" not in cache:
-        cache["tag"] = enumerate_strings("tag", maxlen, w, 4)
-        cache["tpl"] = enumerate_strings("tpl", maxlen, w, 4)
-        cache["valid"] = valid_cases(c02_tier, w, chk.seed)
+        from concurrent.futures import ThreadPoolExecutor
+        with ThreadPoolExecutor(max_workers=3) as ex:
+            f_tag = ex.submit(enumerate_strings, "tag", maxlen, w, 4)
+            f_tpl = ex.submit(enumerate_strings, "tpl", maxlen, w, 2)
+            f_val = ex.submit(valid_cases, c02_tier, w, chk.seed)
+            cache["tag"], cache["tpl"], cache["valid"] = f_tag.result(), f_tpl.result(), f_val.result()
         header, cases, _ = cache["valid"]
         rnd = random.Random(chk.seed * 4409 + 12)
         picks = rnd.sample(range(len(cases)), min(n_bases, len(cases)))
@@ -688,7 +692,7 @@ def run(tier: str) -> int:
     if tier == "quick":
         core(chk, tier, procs=8, maxlen=4, n_bases=120, grow_n=8, n_rand=(3000, 1500, 600, 150), c02_tier="selftest", rt_k=3)
     else:
-        core(chk, tier, procs=8, maxlen=5, n_bases=1200, grow_n=32, n_rand=(30000, 15000, 6000, 1500), c02_tier="quick", rt_k=6)
+        core(chk, tier, procs=8, maxlen=5, n_bases=800, grow_n=32, n_rand=(30000, 15000, 6000, 1500), c02_tier="quick", rt_k=6)
     chk.cov["evaluations"] = chk.cov["inputs"] + chk.cov["roundtrips"] + chk.cov["growth_measurements"] \
         + chk.cov["traces_validated_against_impl"]
     chk.cov["distinct_nontrivial"] = chk.cov["inputs_nontrivial"]
@@ -771,9 +775,15 @@ def selftest(tier: str) -> int:
 
     orig_struct_ser = tp.TagValueStruct.serialize
 
-    def list_without_commas(self):
-        if self.type == "list":
-            return (self.spread or "") + "[" + " ".join(e.serialize() for e in self.entries) + "]"
+    def list_spread_prefix_lost(self):
+        # (a list serialised without commas re-parses to the same arguments - commas are optional
+        #  for the scanner - so that mutant is equivalent; this one is not)
+        if self.type == "list" and self.spread:
+            old, self.spread = self.spread, None
+            try:
+                return orig_struct_ser(self)
+            finally:
+                self.spread = old
         return orig_struct_ser(self)
 
     def dict_spread_prefix_lost(self):
@@ -819,7 +829,7 @@ def selftest(tier: str) -> int:
     probes = [
         ("value-error-instead-of-syntax-error", many((tp.TagValuePart, "__post_init__", post_init_value_error))),
         ("hang-on-trailing-backslash", many((tpar, "_detailed_tag_parser", hang_on_trailing_backslash))),
-        ("list-serialised-without-commas", many((tp.TagValueStruct, "serialize", list_without_commas))),
+        ("list-spread-prefix-lost-in-serialisation", many((tp.TagValueStruct, "serialize", list_spread_prefix_lost))),
         ("dict-spread-prefix-lost-in-serialisation", many((tp.TagValueStruct, "serialize", dict_spread_prefix_lost))),
         ("serialize-always-double-quotes", many((tp.TagValuePart, "serialize", always_double_quotes))),
         ("cubic-rescan-of-tokens", many((dmp, "parse_template", cubic_rescan), (dexpr, "parse_template", cubic_rescan))),
